@@ -3,7 +3,12 @@
 // 3: a file holding a database of another schema version), [1] = recreateOnUnmatchedVersion.
 // Clause: a database that plain sqlite3_open() can open is either opened by BuildDB (first operation succeeds) or rejected
 // with a version error when recreation is not allowed -- it never fails while "initialising" a connection it already closed.
+// (the busy timeout of the connection is shortened for the driver only: 5 s -> 50 ms; nothing else of the source is touched)
+#include <sqlite3.h>
+static inline int verif_busy_timeout(sqlite3* db, int) { return sqlite3_busy_timeout(db, 50); }
+#define sqlite3_busy_timeout(db, ms) verif_busy_timeout(db, ms)
 #include "lib/Core/SQLiteBuildDB.cpp"
+#undef sqlite3_busy_timeout
 #include "driver_common.h"
 #include "llbuild/Core/BuildEngine.h"
 #include "llbuild/Basic/ExecutionQueue.h"
@@ -40,8 +45,36 @@ int session(const std::string& path, const std::string& k1, const std::string& k
   return vi(engine.build(key)); }
 const char* SPELL[] = {"123", "0123", "1e3", "1000", "123.0", " 123", "a", "+5"};
 }
-static const char* ALPHABET() { static const char a[] = "\0\x01\x02\x03\x04\x05\x06\x07"; return a; }
+static const char* ALPHABET() { static const char a[] = "\0\x01\x02\x03\x04\x05\x06\x07\x08"; return a; }
 static int run_case(const std::string& fn, const std::vector<unsigned char>& in, std::string& why) {
+  if (in.size() > 0 && (in[0] & 8)) {
+    // kind 8: a database of another schema version (3) with iteration 41 is held by another connection while BuildDB first touches it;
+    // the first access fails (busy); the holder lets go; the same BuildDB object is used again.  Clause: the foreign database is still
+    // never interpreted -- the second access reports the version mismatch ([1] & 1 == 0) or recreates the database and reads epoch 0.
+    bool recreate = in.size() > 1 ? (in[1] & 1) : false;
+    char t3[] = "/tmp/verif_dbbusy_XXXXXX"; std::string d3 = mkdtemp(t3); std::string path = d3 + "/build.db";
+    sqlite3* holder = nullptr; sqlite3_open(path.c_str(), &holder);
+    sqlite3_exec(holder, "CREATE TABLE info (id INTEGER PRIMARY KEY, version INTEGER, client_version INTEGER, iteration INTEGER); INSERT INTO info VALUES (0, 3, 0, 41);", 0, 0, 0);
+    sqlite3_exec(holder, "BEGIN EXCLUSIVE;", 0, 0, 0);
+    int rc = 0;
+    {
+      std::string error;
+      std::unique_ptr<llbuild::core::BuildDB> db = llbuild::core::createSQLiteBuildDB(path, /*clientSchemaVersion=*/1, recreate, &error);
+      bool s1 = false, s2 = false; std::string e1, e2;
+      db->getCurrentEpoch(&s1, &e1);
+      sqlite3_exec(holder, "END;", 0, 0, 0); sqlite3_close(holder);
+      unsigned long long ep = db->getCurrentEpoch(&s2, &e2);
+      char buf[400];
+      if (!s1 && s2 && (!recreate || ep != 0)) {
+        snprintf(buf, sizeof buf, "a database of schema version 3 (iteration 41) was busy at the first access (%s); at the next access of the same BuildDB the version check was skipped and epoch %llu was read from it (recreate=%d)", e1.c_str(), ep, (int)recreate);
+        why = buf; rc = 1; }
+      else if (!s1 && !s2 && e2.find("Version mismatch") == std::string::npos) {
+        snprintf(buf, sizeof buf, "a database of schema version 3 was busy at the first access (%s); the next access of the same BuildDB fails with '%s' instead of the version check (recreate=%d)", e1.c_str(), e2.c_str(), (int)recreate);
+        why = buf; rc = 1; }
+    }
+    std::string cmd = "rm -rf " + d3; (void)system(cmd.c_str());
+    return rc;
+  }
   if (in.size() > 0 && (in[0] & 4)) {
     char t2[] = "/tmp/verif_dbkeys_XXXXXX"; std::string d2 = mkdtemp(t2); std::string path = d2 + "/build.db";
     std::string k1 = SPELL[in.size() > 2 ? in[2] & 7 : 0], k2 = SPELL[in.size() > 3 ? in[3] & 7 : 1];
